@@ -210,7 +210,7 @@ theorem procDo_monF {G : Ctx} (hs : Src G) (hns : NS G.scripts) {s s' : PS} {r :
   have hwf : b.WF s.heap := WF_of_runs_none hb.wf hb.runs
   refine ⟨?_, ?_, ?_⟩
   · refine ⟨by rw [hmu]; exact hB.safe, hB.sc.event (.pcall task b.active) task rfl hlog hscr, ?_, ?_, ?_,
-      by rw [hscr]; exact hB.ns.pop task⟩
+      fun hg => by rw [hscr]; exact (hB.ns hg).pop task⟩
     · intro e he
       rw [hwr] at he
       exact hB.wr e he
